@@ -3563,13 +3563,14 @@ RCP<const Basic> max(const vec_basic &arg)
             throw SymEngineException("Complex can't be passed to max!");
 
         if (is_a_Number(*p)) {
+            if (eq(*p, *Inf)) {
+                return Inf;
+            }
             if (not number_set) {
                 max_number = rcp_static_cast<const Number>(p);
 
             } else {
-                if (eq(*p, *Inf)) {
-                    return Inf;
-                } else if (eq(*p, *NegInf)) {
+                if (eq(*p, *NegInf)) {
                     continue;
                 }
                 difference = down_cast<const Number &>(*p).sub(*max_number);
@@ -3667,14 +3668,15 @@ RCP<const Basic> min(const vec_basic &arg)
             throw SymEngineException("Complex can't be passed to min!");
 
         if (is_a_Number(*p)) {
+            if (eq(*p, *NegInf)) {
+                return NegInf;
+            }
             if (not number_set) {
                 min_number = rcp_static_cast<const Number>(p);
 
             } else {
                 if (eq(*p, *Inf)) {
                     continue;
-                } else if (eq(*p, *NegInf)) {
-                    return NegInf;
                 }
                 difference = min_number->sub(*rcp_static_cast<const Number>(p));
 
